@@ -83,6 +83,7 @@ type Cluster struct {
 
 	adv         *starve // delivery-controlling adversary (C01 "starve" scenario)
 	recoverSeen bool
+	partsSeen   map[int]string           // ModeParts: last checked (block object, part set) per node
 	catAt       time.Duration            // last time a catalogue block was proposed
 	hostileAt   time.Duration            // last time a hostile message was sent
 	recent      []recentMsg              // recent genuine traffic (material for mutation)
@@ -101,6 +102,7 @@ const (
 	ModeHostile                // C16
 	ModeProposer               // C17 (cluster part)
 	ModeSigner                 // C04 (node-level part): crashes, WAL damage, every signing call recorded
+	ModeParts                  // C12 (node-level part): equivocating proposers; the block a node assembled is the bytes it received
 )
 
 type evKind int
@@ -288,8 +290,11 @@ func drawConfig(c *kernel.Ctx, mode Mode) Config {
 		cfg.ByzKinds = []string{"hostile"}
 		cfg.Crashes = false
 	}
-	if mode == ModeAgreement || mode == ModeValidation || mode == ModeProposer {
+	if mode == ModeAgreement || mode == ModeValidation || mode == ModeProposer || mode == ModeParts {
 		want := t.Pick(3, 6, 2) // 0, 1 or 2 Byzantine validators
+		if mode == ModeParts && want == 0 {
+			want = 1
+		}
 		if mode == ModeValidation && want == 0 {
 			want = 1
 		}
@@ -342,6 +347,12 @@ func drawConfig(c *kernel.Ctx, mode Mode) Config {
 			kind := kinds[t.Int(len(kinds))]
 			if mode == ModeValidation && k == 0 {
 				kind = "catalogue"
+			}
+			if mode == ModeParts && k == 0 {
+				// two different valid blocks for one round: a node that holds one of
+				// them completely sees a polka for the other and has to re-target
+				// its part set
+				kind = "equivocate-proposals"
 			}
 			cfg.ByzKinds = append(cfg.ByzKinds, kind)
 		}
